@@ -142,8 +142,8 @@ Definition loc_selected (cfg : config) (first : input) (x : Z) : Prop :=
    | None, None => match c_locs cfg with Some l => In x l | None => In x (map l_id (i_locs first)) end
    | _, _ =>
        (exists s, In s (i_locs first) /\ l_id s = x /\
-                  in_range (c_lat cfg) (-90000) 90000 (l_lat s) = true /\
-                  in_range (c_lon cfg) (-180000) 180000 (l_lon s) = true) /\
+                  in_given (c_lat cfg) (l_lat s) = true /\
+                  in_given (c_lon cfg) (l_lon s) = true) /\
        match c_locs cfg with Some l => In x l | None => True end
    end) /\
   (match c_elev cfg with
@@ -152,14 +152,21 @@ Definition loc_selected (cfg : config) (first : input) (x : Z) : Prop :=
    end) /\
   (match c_locs_x cfg with Some lx => ~ In x lx | None => True end).
 
+Lemma in_given_spec r x :
+  in_given r x = true <-> match r with Some (a, b) => a <= x <= b | None => True end.
+Proof.
+  unfold in_given. destruct r as [[a b]|]; [|tauto].
+  rewrite andb_true_iff, !Z.leb_le. tauto.
+Qed.
+
 Lemma zmem_false x l : zmem x l = false <-> ~ In x l.
 Proof. rewrite <- zmem_In. destruct (zmem x l); split; intros; congruence. Qed.
 
 Lemma latlon_ids_In cfg locs y :
   In y (latlon_ids V cfg locs) <->
   exists s, In s locs /\ l_id s = y /\
-            in_range (c_lat cfg) (-90000) 90000 (l_lat s) = true /\
-            in_range (c_lon cfg) (-180000) 180000 (l_lon s) = true.
+            in_given (c_lat cfg) (l_lat s) = true /\
+            in_given (c_lon cfg) (l_lon s) = true.
 Proof.
   unfold latlon_ids. rewrite in_map_iff. split.
   - intros [s [Hid Hs]]. apply filter_In in Hs. destruct Hs as [Hs Hb]. apply andb_true_iff in Hb. exists s. tauto.
@@ -187,8 +194,8 @@ Proof.
      match c_lat cfg, c_lon cfg with
      | None, None => match c_locs cfg with Some l => In x l | None => In x (map l_id (i_locs first)) end
      | _, _ => (exists s, In s (i_locs first) /\ l_id s = x /\
-                  in_range (c_lat cfg) (-90000) 90000 (l_lat s) = true /\
-                  in_range (c_lon cfg) (-180000) 180000 (l_lon s) = true) /\
+                  in_given (c_lat cfg) (l_lat s) = true /\
+                  in_given (c_lon cfg) (l_lon s) = true) /\
                match c_locs cfg with Some l => In x l | None => True end
      end).
   { unfold loc_step1 in E1.
@@ -197,8 +204,8 @@ Proof.
        let use := match c_locs cfg with Some l => filter (fun x0 => zmem x0 ll) l | None => ll end in
        if is_nil use then Error E_latlon else OK use) = OK w ->
       (In x w <-> (exists s, In s (i_locs first) /\ l_id s = x /\
-                  in_range (c_lat cfg) (-90000) 90000 (l_lat s) = true /\
-                  in_range (c_lon cfg) (-180000) 180000 (l_lon s) = true) /\
+                  in_given (c_lat cfg) (l_lat s) = true /\
+                  in_given (c_lon cfg) (l_lon s) = true) /\
                   match c_locs cfg with Some l => In x l | None => True end)).
     { cbv zeta. intros w Hw.
       destruct (is_nil (match c_locs cfg with
@@ -223,6 +230,31 @@ Proof.
   unfold loc_step3. destruct (c_locs_x cfg) as [lx|].
   - rewrite filter_In, negb_true_iff, zmem_false, S2, S1. tauto.
   - rewrite S2, S1. tauto.
+Qed.
+
+(* -latrange given alone selects by latitude only: a station is kept whatever its longitude (also beyond 180, as in
+   files using 0..360), and symmetrically for -lonrange alone *)
+Corollary latrange_alone cfg first use x a b :
+  c_lat cfg = Some (a, b) -> c_lon cfg = None -> c_locs cfg = None -> c_elev cfg = None -> c_locs_x cfg = None ->
+  use_locations V cfg first = OK use ->
+  (In x use <-> exists s, In s (i_locs first) /\ l_id s = x /\ a <= l_lat s <= b).
+Proof.
+  intros H1 H2 H3 H4 H5 Hu. rewrite (use_locations_spec cfg first use x Hu). unfold loc_selected.
+  rewrite H1, H2, H3, H4, H5. split.
+  - intros [[[s [Hs [Hid [Ha _]]]] _] _]. exists s. apply in_given_spec in Ha. tauto.
+  - intros [s [Hs [Hid Hr]]]. repeat split; try exact I. exists s. repeat split; try assumption.
+    apply in_given_spec. exact Hr.
+Qed.
+Corollary lonrange_alone cfg first use x a b :
+  c_lat cfg = None -> c_lon cfg = Some (a, b) -> c_locs cfg = None -> c_elev cfg = None -> c_locs_x cfg = None ->
+  use_locations V cfg first = OK use ->
+  (In x use <-> exists s, In s (i_locs first) /\ l_id s = x /\ a <= l_lon s <= b).
+Proof.
+  intros H1 H2 H3 H4 H5 Hu. rewrite (use_locations_spec cfg first use x Hu). unfold loc_selected.
+  rewrite H1, H2, H3, H4, H5. split.
+  - intros [[[s [Hs [Hid [_ Ha]]]] _] _]. exists s. apply in_given_spec in Ha. tauto.
+  - intros [s [Hs [Hid Hr]]]. repeat split; try exact I. exists s. repeat split; try assumption.
+    apply in_given_spec. exact Hr.
 Qed.
 
 End S.
